@@ -491,7 +491,7 @@ func runC01(c *mon.Ctx) {
 	if level == "box" {
 		return
 	}
-	st := runMgr(c, "C01", "c01-mgr", c.N(300, 5000), c.N(14, 18), !c.Quick(), 0, only)
+	st := runMgr(c, "C01", "c01-mgr", c.N(300, 3000), c.N(14, 18), !c.Quick(), 0, only)
 	if st["runs"] > 0 && st["runs_with_nonempty_difference"] == 0 {
 		c.Inconclusive("manager level: no run processed a non-empty difference")
 	}
@@ -510,7 +510,7 @@ func runC02(c *mon.Ctx) {
 		"distinct non-trivial = (scenario class, response types seen, recovered-by-difference buckets) of runs in which a difference carried at least one other_updates entry")
 	c.Assume("the fake server is the specification of Telegram's difference answers: other_updates carry real pts/pts_count (as the MTProto schema and TDLib's processing of getDifference show)")
 	_, only, _ := replayCase(c)
-	st := runMgr(c, "C02", "c02", c.N(300, 5000), c.N(14, 18), !c.Quick(), 0, only)
+	st := runMgr(c, "C02", "c02", c.N(300, 2500), c.N(14, 18), !c.Quick(), 0, only)
 	if st["runs"] > 0 && st["runs_with_other_updates_in_a_difference"] == 0 {
 		c.Inconclusive("no run had a difference carrying other_updates")
 	}
@@ -526,11 +526,11 @@ func runC03(c *mon.Ctx) {
 		"whose restart had to recover at least one entry")
 	c.Assume("handler call entry = 'handed to the handler'; a crash is modelled as losing all memory and keeping exactly the storage image after the last completed write")
 	_, only, _ := replayCase(c)
-	crash := c.N(40, 1000)
+	crash := c.N(40, 500)
 	if only >= 0 {
 		crash = only + 1
 	}
-	st := runMgr(c, "C03", "c03", c.N(200, 3000), c.N(12, 16), false, crash, only)
+	st := runMgr(c, "C03", "c03", c.N(200, 1500), c.N(12, 16), false, crash, only)
 	if st["runs"] > 0 && (st["position_writes_checked"] == 0 || st["restarts_that_recovered_entries"] == 0) {
 		c.Inconclusive("no position-bearing storage write or no restart that had to recover anything was observed")
 	}
